@@ -36,16 +36,18 @@ Request(name, auth, i, A, R) ==
             [] name = "openBug"             -> Done(1, [b EXCEPT !.status = "OPEN"])
             [] name = "closeBug"            -> Done(1, [b EXCEPT !.status = "CLOSED"])
             [] name = "setTitle"            -> Done(1, [b EXCEPT !.title = k + 1])
+            [] name = "editCommentAmbiguous" -> Refuse          \* a prefix shared by several comments designates none of them
             [] name = "setTitleEmpty"       -> Refuse           \* ill-formed: an empty title
             [] name = "unknownBug"          -> Refuse           \* any mutation addressing a bug that does not exist
 
-Names == {"addComment", "addCommentAndClose", "addCommentAndReopen", "editComment", "changeLabels", "openBug", "closeBug",
-          "setTitle", "setTitleEmpty", "unknownBug"}
+Names == {"addComment", "addCommentAndClose", "addCommentAndReopen", "editComment", "editCommentAmbiguous", "changeLabels", "openBug",
+          "closeBug", "setTitle", "setTitleEmpty", "unknownBug"}
 
 Next == \E name \in Names, auth \in BOOLEAN, i \in 1..3, A \in SUBSET Labels, R \in SUBSET Labels :
           /\ (name = "changeLabels") => (A \cap R = {} /\ A \cup R # {})
           /\ (name # "changeLabels") => (A = {} /\ R = {})
           /\ (name # "editComment") => i = 1
+          /\ (name = "editCommentAmbiguous") => Len(b.text) >= 2      \* sent only when the prefix is ambiguous indeed
           /\ Request(name, auth, i, A, R)
 Spec == Init /\ [][Next]_vars
 
